@@ -197,7 +197,7 @@ def bm1(F, R):
                 # the cluster must be the one just found free
                 ctb = [s for s in _all_subterms_through_vars(fn, idx) if s[0] == "call" and s[1] and path_matches(s[1], "FatVolume::cluster_to_block")]
                 fresh = any(derives_from_call(fn, c[2][1], ("FatVolume::find_next_free_cluster",)) for c in ctb)
-                zero_guard, _ = guarded(fn, b, lambda g: g.kind == "bool" and g.term[0] == "arg" and g.term[2] == "zero" and g.truth is True)
+                zero_guard, _ = guarded(fn, b, lambda g: g.kind == "bool" and g.term[0] == "arg" and g.term[1] == 4 and g.truth is True)
                 R.require(ok_idx and fresh, fn, "alloc:index", "blank_mut index %s is not a block of the freshly found cluster" % tstr(idx), fn.loc(b))
                 R.require(zero_guard, fn, "alloc:zero-flag", "blank_mut not under the `zero` flag", fn.loc(b))
             elif fn.npath == FATVOL + "::make_dir":
@@ -258,10 +258,9 @@ def _bm1_write(F, R, fn, b, t, idx):
     for (bb, ii, v) in oks:
         if v[0] == "agg" and len(v[3]) == 3:
             off, avail = v[3][1], v[3][2]
-            e1 = tmatch(avail, ("bin", "Sub", ("c", 512), "$o"))
-            if e1 is not None and e1["$o"] == off:
-                e2 = tmatch(off, ("cast?", ("bin", "Rem", "_", ("c", 512))))
-                good = e2 is not None
+            from .poly import peq, SUB, C, nkey
+            ko = nkey(off)
+            good = peq(avail, SUB(C(512), off)) and isinstance(ko, tuple) and ko[0] == "bin" and ko[1] == "Rem" and ko[3] == ("poly", (((), 512),))
     R.require(good, fd, "find:avail=512-offset", "find_data_on_disk must return (idx, offset % 512, 512 - offset)", fd.loc(0))
 
 
@@ -362,10 +361,10 @@ def ft2(F, R):
             continue
         b, t = rms[0]
         idx = fn.term_of_operand(t["args"][1], b)
-        pat = ("call", "Add::add", [("place", ("arg", "self"), ("*", "lba_start")),
-                                   ("call", "BlockCount::offset_bytes", [("place", ("arg", "self"), ("*", "fat_start")), "$off"])])
+        pat = ("call", "Add::add", [("place", ("arg", 1), ("*", "lba_start")),
+                                   ("call", "BlockCount::offset_bytes", [("place", ("arg", 1), ("*", "fat_start")), "$off"])])
         env = tmatch(idx, pat)
-        ok = env is not None and tmatch(env["$off"], ("bin", "Mul", ("place", ("arg", "cluster"), ("0",)), ("c", k))) is not None
+        ok = env is not None and tmatch(env["$off"], ("bin", "Mul", ("place", ("arg", 3), ("0",)), ("c", k))) is not None
         R.require(ok, fn, arm + ":primary-index", "primary FAT block must be lba_start + fat_start.offset_bytes(cluster.0 * %d); got %s" % (k, tstr(idx)), fn.loc(b))
         # duplicate index assigned in this arm
         dups = []
@@ -376,7 +375,7 @@ def ft2(F, R):
                     dups.append((bb, ii, v))
         okd = False
         for bb, ii, v in dups:
-            pat2 = ("call", "Add::add", [("place", ("arg", "self"), ("*", "lba_start")), ("call", "BlockCount::offset_bytes", ["$base", "$off2"])])
+            pat2 = ("call", "Add::add", [("place", ("arg", 1), ("*", "lba_start")), ("call", "BlockCount::offset_bytes", ["$base", "$off2"])])
             e2 = tmatch(v[3][0], pat2)
             if e2 is not None and env is not None and e2["$off2"] == env["$off"] and "second_fat_start" in tstr(e2["$base"]):
                 g, _ = guarded(fn, bb, lambda g: g.kind == "variant" and g.variant == "Some" and "second_fat_start" in tstr(g.term))
@@ -730,7 +729,7 @@ def ft9(F, R):
     calls = _update_fat_calls(fn)
     empt = [c for c in calls if c[4] == "EMPTY"]
     eof = [c for c in calls if c[4] == "EOF"]
-    R.require(len(eof) == 1 and tstr(eof[0][2]) == "cluster", fn, "terminate-head", "the chain head `cluster` must be marked END_OF_FILE (got %s)" % [tstr(c[2]) for c in eof], fn.loc(eof[0][0]) if eof else None)
+    R.require(len(eof) == 1 and strip_refs(eof[0][2])[:2] == ("arg", 3), fn, "terminate-head", "the chain head `cluster` must be marked END_OF_FILE (got %s)" % [tstr(c[2]) for c in eof], fn.loc(eof[0][0]) if eof else None)
     R.require(len(empt) >= 2, fn, "frees", "expected the two freeing sites (Ok(n) arm, EndOfFile arm)", fn.loc(0))
     for (b, t, cl, val, kind) in empt:
         c = strip_refs(cl)
@@ -828,7 +827,7 @@ def or2(F, R):
     def step(st, e):
         if e[0] == "fat":
             if e[1] == "EOF":
-                if e[2] != "cluster":
+                if e[2] != (fn.local_name(3) or "cluster"):   # the ClusterId parameter, whatever it is called
                     return Bad("END_OF_FILE written to %s instead of the retained chain head `cluster`" % e[2])
                 return "terminated"
             if e[1] == "EMPTY" and st != "terminated":
@@ -1131,7 +1130,7 @@ def is3(F, R):
         okk = ok_all
     R.require(okk, fn, "hint-in-range", "the on-disk next-free hint is used as a search start without `hint < cluster_count + 2`", fn.loc(b))
     end = fn.term_of_operand(t["args"][3], b)
-    oke = tmatch(strip_refs(end), ("agg", "ClusterId", [("bin", "Add", ("place", ("arg", "self"), ("*", "cluster_count")), ("c", 2))])) is not None
+    oke = tmatch(strip_refs(end), ("agg", "ClusterId", [("bin", "Add", ("place", ("arg", 1), ("*", "cluster_count")), ("c", 2))])) is not None
     R.require(oke, fn, "end=count+2", "search end must be cluster_count + RESERVED_ENTRIES, got %s" % tstr(end), fn.loc(b))
 
 
@@ -1220,7 +1219,7 @@ def or5(F, R):
                     problems.append("blocks enumerated with a hand-built BlockIter (%s); use start.range(BlockCount(blocks_per_cluster))" % tstr(r))
                     continue
                 cnt = r[2][1]
-                pat = ("agg", "BlockCount", [("call", "From::from", [("place", ("arg", "self"), ("*", "blocks_per_cluster"))])])
+                pat = ("agg", "BlockCount", [("call", "From::from", [("place", ("arg", 1), ("*", "blocks_per_cluster"))])])
                 c2 = strip_refs(cnt)
                 cands = [c2] if c2[0] != "var" else var_def_terms(fn, c2[1])
                 if not all(tmatch(c, pat) is not None for c in cands):
